@@ -310,7 +310,8 @@ func (s *Session) leakIn(str string) {
 
 // abstractPath maps the real temporary names inside a concrete path to their abstract names.
 func (s *Session) abstractPath(t string) Path {
-	s.leakIn(t)
+	// (a returned path is compared with the specification's, which is virtual: only the path fields of errors, which
+	// nothing else looks at, are scanned for the base path - a virtual tree may itself contain B's own path)
 	p := ParsePath(t)
 
 	if s.Win {
